@@ -13,7 +13,7 @@ that are empty / long / contain braces / percent signs) and run through the real
 end to end through frontend + queue + ManualBackendWorker into a recording sink, plus seeded random larger
 patterns, (c) every recorded execution is judged by TLC against the contract on strings (TracePattern).
 The verdict comes only from (c)."""
-import hashlib, itertools, json, random, re, time
+import hashlib, itertools, json, os, random, re, time
 from concurrent.futures import ThreadPoolExecutor
 import vlib
 
@@ -207,43 +207,57 @@ def run_cases(exe, cases, rng, timeout):
     hdrs = [shard_header(rng) for _ in shards]
 
     def one(k):
-        d = vlib.scratch("c12")
-        try:
-            inp, outp = d / "cases.txt", d / "out.ndjson"
-            with open(inp, "w") as f:
-                f.write(header_line(hdrs[k]) + "\n")
-                for c in shards[k]:
-                    f.write((d_line(c) if c["op"] == "fmt" else e_line(c)) + "\n")
-            rc, so, se = vlib.run_cmd([exe, "run", inp, outp], timeout=timeout)
-            res, ids = {}, {"tid": "?", "pid": "?"}
-            if outp.exists():
-                for line in outp.read_text().splitlines():
-                    try:
-                        j = json.loads(line)
-                    except Exception:
-                        continue
-                    if "hdr" in j:
-                        ids = j
-                    else:
-                        res[j["id"]] = j
-            return rc, res, ids, se[-400:]
-        finally:
-            vlib.rm(d)
+        """one shard = one harness process; if the process dies in a case, that case has no result (judged as such)
+        and a new process continues with the cases after it"""
+        pending, res, ids_of, deaths, skipped = list(shards[k]), {}, {}, 0, []
+        while pending:
+            d = vlib.scratch("c12")
+            try:
+                inp, outp = d / "cases.txt", d / "out.ndjson"
+                with open(inp, "w") as f:
+                    f.write(header_line(hdrs[k]) + "\n")
+                    for c in pending:
+                        f.write((d_line(c) if c["op"] == "fmt" else e_line(c)) + "\n")
+                rc, so, se = vlib.run_cmd([exe, "run", inp, outp], timeout=timeout)
+                if rc == -9:
+                    raise vlib.Infra("h_fmt_pattern timeout")
+                ids = {"tid": "?", "pid": "?"}
+                if outp.exists():
+                    for line in outp.read_text(errors="replace").splitlines():
+                        try:
+                            j = json.loads(line)
+                        except Exception:
+                            continue
+                        if "hdr" in j:
+                            ids = j
+                        elif "id" in j:
+                            res[j["id"]] = j
+                            ids_of[j["id"]] = ids
+            finally:
+                vlib.rm(d)
+            first_missing = next((i for i, c in enumerate(pending) if c["id"] not in res), None)
+            if first_missing is None:
+                break
+            deaths += 1
+            ids_of[pending[first_missing]["id"]] = ids
+            pending = pending[first_missing + 1:]
+            if deaths >= 25:
+                skipped = [c["id"] for c in pending]      # give up on this shard: the rest is not run, not judged
+                break
+        return res, ids_of, deaths, set(skipped)
 
     with ThreadPoolExecutor(max_workers=vlib.NCPU) as ex:
         outs = list(ex.map(one, range(ns)))
-    crashed = 0
-    for k, (rc, res, ids, se) in enumerate(outs):
-        if rc == -9:
-            raise vlib.Infra("h_fmt_pattern timeout")
-        if rc != 0:
-            crashed += 1
+    deaths = 0
+    for k, (res, ids_of, nd, skipped) in enumerate(outs):
+        deaths += nd
         for c in shards[k]:
             c["got"] = res.get(c["id"])
-            c["hdr"], c["ids"] = hdrs[k], ids
+            c["skipped"] = c["id"] in skipped
+            c["hdr"], c["ids"] = hdrs[k], ids_of.get(c["id"], {"tid": "?", "pid": "?"})
             if c["op"] == "e2e":
-                c["b"] = e2e_statement(c, hdrs[k], ids)
-    return crashed
+                c["b"] = e2e_statement(c, hdrs[k], c["ids"])
+    return deaths
 
 
 def trace_line(c):
@@ -261,17 +275,26 @@ _re_state3 = re.compile(r"State 3: [^\n]*\n((?:/\\ [^\n]*\n)+)")
 
 
 def validate(ck, lines, label="TracePattern", timeout=900):
-    """TLC judges the recorded executions. Returns (set of rejected 0-based indexes, set of out-of-domain indexes)."""
+    """TLC judges the recorded executions. Returns (set of rejected 0-based indexes, set of out-of-domain indexes).
+    Statements (record b) are written once each to a second file and referenced by index."""
     if not lines:
         return set(), set()
     d = vlib.scratch("tv")
     try:
-        tp = d / "trace.ndjson"
-        with open(tp, "w") as f:
+        tp, sp = d / "trace.ndjson", d / "stmts.ndjson"
+        idx = {}
+        with open(tp, "w") as f, open(sp, "w") as g:
             for ln in lines:
-                f.write(json.dumps(ln, separators=(",", ":")) + "\n")
-        r = vlib.tlc("TracePattern", "TracePattern.cfg", env={"TRACE": str(tp)}, timeout=timeout, heap="8g",
-                     extra=["-continue"], dump_trace=False)
+                bj = json.dumps(ln["b"], separators=(",", ":"), sort_keys=True)
+                k = idx.get(bj)
+                if k is None:
+                    k = idx[bj] = len(idx) + 1
+                    g.write(bj + "\n")
+                o = {kk: v for kk, v in ln.items() if kk != "b"}
+                o["bi"] = k
+                f.write(json.dumps(o, separators=(",", ":")) + "\n")
+        r = vlib.tlc("TracePattern", "TracePattern.cfg", env={"TRACE": str(tp), "STMTS": str(sp)}, timeout=timeout, heap="8g",
+                     workers=min(8, vlib.NCPU), extra=["-continue"], dump_trace=False)
     finally:
         vlib.rm(d)
     if r.error and r.violated is None:
@@ -348,14 +371,18 @@ def sset(xs):
     return "{" + ", ".join('"%s"' % x for x in xs) + "}"
 
 
+def nset(xs):
+    return "{" + ", ".join(str(x) for x in xs) + "}"
+
+
 def pattern_cfg(name, phase, attrs, subsets=None, max_items=3, lits=("x",), specs=(1,), braces=False, unk=False,
                 open_=False, max_msg=5, max_src=6, export=False, invs=("AllPatternOK",)):
     subsets = subsets or [list(attrs)]
     text = ("SPECIFICATION Spec\nCONSTANTS\n Phase = \"%s\"\n Attrs = %s\n Subsets = {%s}\n MaxItems = %d\n"
-            " LitSyms = %s\n SpecIds = {%s}\n WithBraces = %s\n WithUnknown = %s\n WithOpen = %s\n MaxMsg = %d\n"
+            " LitSyms = %s\n SpecIds = %s\n WithBraces = %s\n WithUnknown = %s\n WithOpen = %s\n MaxMsg = %d\n"
             " MaxSrc = %d\n Export = %s\nINVARIANTS %s\n%sCHECK_DEADLOCK FALSE\n"
             % (phase, sset(attrs), ", ".join(sset(s) for s in subsets), max_items, sset(lits),
-               ", ".join(str(s) for s in specs), str(braces).upper(), str(unk).upper(), str(open_).upper(), max_msg,
+               nset(specs), str(braces).upper(), str(unk).upper(), str(open_).upper(), max_msg,
                max_src, str(export).upper(), " ".join(invs), "ACTION_CONSTRAINT ExportA\n" if export else ""))
     return vlib.write_cfg(vlib.BUILD / "cfg" / (name + ".cfg"), text)
 
@@ -380,7 +407,8 @@ def extract_constants(ck, exe):
 
 
 # --------------------------------------------------------------------------------------------- case generation
-def cases_from_pattern_beh(behs, ab, rng, seeded_variants, origin):
+def cases_from_pattern_beh(behs, ab, rng, seeded_variants, origin, pool):
+    """seeded_variants: probability that a case also gets a variant with seeded special values"""
     out = []
     for b in behs:
         flat = b["flat"]
@@ -389,8 +417,8 @@ def cases_from_pattern_beh(behs, ab, rng, seeded_variants, origin):
         pred = {"rej": b["rej"], "err": b["err"], "out": None if (b["rej"] or b["err"]) else ab.text(b["out"])}
         out.append({"op": "fmt", "pattern": pat, "b": st, "raw": raw, "origin": origin, "pred": pred,
                     "cls": "must" if b["must"] else "valid" if b["valid"] else "other"})
-        for _ in range(seeded_variants):
-            st2, raw2 = rnd_statement(rng)
+        for _ in range(1 if rng.random() < seeded_variants else 0):
+            st2, raw2 = rng.choice(pool)
             out.append({"op": "fmt", "pattern": concretise_flat(flat, rng), "b": st2, "raw": raw2, "origin": origin + "+seeded",
                         "cls": "must" if b["must"] else "valid" if b["valid"] else "other"})
     return out
@@ -558,24 +586,28 @@ def run(ck):
     ALL_LITS = ("x", "%", "(", ")", ":")
     parse_attrs = ["message", "time", "line_number"]
     runs = []   # (label, cfg, tlc kwargs, export?)
-    COV = {"coverage": True}     # -coverage slows TLC ~2x: the vacuity self-test runs on the smaller configuration of each
-    #                              kind (same module, same actions), the larger one runs without it
+    COV = {"coverage": True}
+    # vacuity self-test: -coverage slows TLC 2-4x, so it runs on a 2-item configuration of each kind (same module, same
+    # actions); for the configurations that export, the per-action case counts are taken from the export itself
+    runs.append(("Cov_parse2", pattern_cfg("C12_Cov_parse2", "pattern", parse_attrs, max_items=2, lits=ALL_LITS,
+                                           specs=range(1, 8), braces=True, unk=True, open_=True), COV, False))
+    runs.append(("Cov_slots2", pattern_cfg("C12_Cov_slots2", "pattern", NAMES, subsets, max_items=2, specs=(1,)), COV, False))
     if quick:
         runs.append(("MC_parse3", pattern_cfg("C12_MC_parse3", "pattern", parse_attrs, max_items=3, lits=ALL_LITS,
-                                              specs=range(1, 8), braces=True, unk=True, open_=True, export=True), COV, True))
+                                              specs=range(1, 8), braces=True, unk=True, open_=True, export=True), {}, True))
         runs.append(("MC_parse4", pattern_cfg("C12_MC_parse4", "pattern", ["message", "time"], max_items=4, lits=ALL_LITS,
                                               specs=(2, 6), braces=True, unk=True, open_=True), {}, False))
-        runs.append(("MC_slots3", pattern_cfg("C12_MC_slots3", "pattern", NAMES, subsets, max_items=3, specs=(1,), export=True), COV, True))
-        runs.append(("MC_slots4", pattern_cfg("C12_MC_slots4", "pattern", NAMES, subsets, max_items=4, specs=(2,)), {}, False))
+        runs.append(("MC_slots3", pattern_cfg("C12_MC_slots3", "pattern", NAMES, subsets, max_items=3, specs=(1,), export=True), {}, True))
+        runs.append(("MC_slots4", pattern_cfg("C12_MC_slots4", "pattern", NAMES, subsets, max_items=4, specs=()), {}, False))
     else:
         runs.append(("MC_parse3", pattern_cfg("C12_MC_parse3", "pattern", parse_attrs, max_items=3, lits=ALL_LITS,
-                                              specs=range(1, 8), braces=True, unk=True, open_=True), COV, False))
-        runs.append(("MC_parse4", pattern_cfg("C12_MC_parse4", "pattern", parse_attrs, max_items=4, lits=ALL_LITS,
                                               specs=range(1, 8), braces=True, unk=True, open_=True, export=True), {}, True))
-        runs.append(("MC_slots3", pattern_cfg("C12_MC_slots3", "pattern", NAMES, subsets, max_items=3, specs=(1,)), COV, False))
-        runs.append(("MC_slots4", pattern_cfg("C12_MC_slots4", "pattern", NAMES, subsets, max_items=4, specs=(1, 2), export=True), {}, True))
-        runs.append(("MC_slots5", pattern_cfg("C12_MC_slots5", "pattern", NAMES, subsets, max_items=5, specs=(3,)), {}, False))
-        runs.append(("MC_all16_3", pattern_cfg("C12_MC_all16_3", "pattern", NAMES, max_items=3, lits=("x", "%"), specs=(1, 2, 3), unk=True, open_=True), {}, False))
+        runs.append(("MC_parse4", pattern_cfg("C12_MC_parse4", "pattern", ["message", "time"], max_items=4, lits=ALL_LITS,
+                                              specs=range(1, 8), braces=True, unk=True, open_=True, export=True), {}, True))
+        runs.append(("MC_slots4", pattern_cfg("C12_MC_slots4", "pattern", NAMES, subsets, max_items=4, specs=(2,), export=True), {}, True))
+        runs.append(("MC_slots5", pattern_cfg("C12_MC_slots5", "pattern", NAMES, subsets, max_items=5, specs=()), {}, False))
+        runs.append(("MC_slots6", pattern_cfg("C12_MC_slots6", "pattern", NAMES, subsets, max_items=6, lits=(), specs=()), {}, False))
+        runs.append(("MC_all16_3", pattern_cfg("C12_MC_all16_3", "pattern", NAMES, max_items=3, specs=(1,), unk=True), {}, False))
     runs.append(("MC_message", pattern_cfg("C12_MC_message", "message", NAMES, max_msg=5 if quick else 7, export=True,
                                            invs=("LinesOK", "SplitExact")), COV, True))
     runs.append(("MC_source", pattern_cfg("C12_MC_source", "source", NAMES, max_src=6 if quick else 8, export=True,
@@ -583,17 +615,28 @@ def run(ck):
     # random walks to deep patterns (up to 20 items, all sixteen attributes in one pattern: the last slot is in use)
     runs.append(("Sim_deep", pattern_cfg("C12_Sim_deep", "pattern", NAMES, max_items=20, lits=("x", "%"), specs=(1, 2, 3),
                                          unk=False, open_=False, export=True),
-                 {"simulate": max(1, (160 if quick else 3200) // vlib.NCPU), "depth": 21, "seed": ck.seed}, True))
+                 {"simulate": max(1, (160 if quick else 1600) // vlib.NCPU), "depth": 21, "seed": ck.seed}, True))
 
-    need = {"MC_parse3": ("ALit", "ABrace", "AAttr", "AAttrSpec", "AUnknown", "AOpen"),
-            "MC_parse4": ("ALit", "ABrace", "AAttr", "AAttrSpec", "AUnknown", "AOpen"),
-            "MC_slots3": ("ALit", "AAttr", "AAttrSpec"), "MC_slots4": ("ALit", "AAttr", "AAttrSpec"),
-            "MC_slots5": ("ALit", "AAttr", "AAttrSpec"), "MC_message": ("AMsgSym",), "MC_source": ("ASrcSym",)}
+    need = {"Cov_parse2": ("ALit", "ABrace", "AAttr", "AAttrSpec", "AUnknown", "AOpen"),
+            "Cov_slots2": ("ALit", "AAttr", "AAttrSpec"), "MC_message": ("AMsgSym",), "MC_source": ("ASrcSym",)}
+    need_acts = {"MC_parse3": ("lit", "brace", "attr", "attr+spec", "unk", "open"),
+                 "MC_parse4": ("lit", "brace", "attr", "attr+spec", "unk", "open"),
+                 "MC_slots3": ("lit", "attr", "attr+spec"), "MC_slots4": ("lit", "attr"),
+                 "Sim_deep": ("lit", "attr", "attr+spec")}
     behs, hdr = {}, None
     model_cex = []
+    fast = os.environ.get("C12_FAST") == "1"      # binding self-test (mutations/C12_mutations.py): exporting runs only
+    if fast:
+        ck.extra["fast_mode"] = "C12_FAST=1: non-exporting model-checking configurations skipped"
     for label, cfg, kw, export in runs:
+        if fast and not export:
+            continue
         sim = "simulate" in kw
         r = tlc_pattern(cfg, consts, timeout=1500, **kw)
+        if sim:
+            m = re.search(r"The number of states generated: (\d+)", r.out)
+            if m:
+                r.generated = r.distinct = int(m.group(1))     # random walks: states checked, not distinct states
         if r.violated == "AllPatternOK":
             # name the clause: same configuration with the three properties as separate invariants
             r3 = tlc_pattern(vlib.write_cfg(vlib.BUILD / "cfg" / "C12_named.cfg",
@@ -625,12 +668,18 @@ def run(ck):
             for b in bl:          # the same state can be generated more than once (several subsets fit)
                 uniq.setdefault(json.dumps(b, sort_keys=True), b)
             behs[label] = list(uniq.values())
-    ck.exhaustive = not model_cex
+            acts = _count(behs[label], "act") if behs[label] and "act" in behs[label][0] else {}
+            ck.extra.setdefault("cases_per_action", {})[label] = acts
+            for act in need_acts.get(label, ()):
+                if not acts.get(act) and not r.violated:       # (TLC stops at a counterexample: export incomplete)
+                    raise vlib.Infra(f"vacuity: no exported case of {label} was built by action {act}")
+    ck.exhaustive = not model_cex and not fast
     if hdr is None:
         raise vlib.Infra("no HDR line in the TLC export")
     ab = Abstract(hdr)
 
     # ---- 2. cases for the real code
+    pool = [rnd_statement(rng) for _ in range(400 if quick else 4000)]     # seeded statements shared by many patterns
     cases = []
     for label, bs in behs.items():
         if label == "MC_message":
@@ -638,14 +687,14 @@ def run(ck):
         elif label == "MC_source":
             cases += cases_from_source_beh(bs, ab, rng, label)
         else:
-            cases += cases_from_pattern_beh(bs, ab, rng, 1, label)
+            cases += cases_from_pattern_beh(bs, ab, rng, 1.0 if quick else 0.25, label, pool)
     for label, inv, p in model_cex:
         if p:
             flat = _flat_of_items(p, hdr["specs"])
             st, raw = ab.statement()
             cases.append({"op": "fmt", "pattern": concretise_flat(flat), "b": st, "raw": raw, "origin": "model-cex:" + label, "cls": "valid"})
     n_tlc = len(cases)
-    cases += random_cases(rng, 4000 if quick else 60000, 600 if quick else 6000)
+    cases += random_cases(rng, 4000 if quick else 60000, 600 if quick else 3000)
     for i, c in enumerate(cases):
         c["id"] = i + 1
         if c["op"] == "e2e":
@@ -656,8 +705,12 @@ def run(ck):
     # ---- 3. real code, 4. contract
     t0 = time.time()
     vlib.log(f"[C12] {len(cases)} cases ({n_tlc} from TLC)")
-    crashed = run_cases(exe, cases, rng, timeout=600 if quick else 1500)
-    ck.extra["harness_shards_crashed"] = crashed
+    deaths = run_cases(exe, cases, rng, timeout=600 if quick else 1500)
+    ck.extra["harness_process_deaths"] = deaths          # a case in which the process died is judged as "no result"
+    nskip = sum(1 for c in cases if c["skipped"])
+    if nskip:
+        ck.extra["cases_not_run"] = nskip
+        cases = [c for c in cases if not c["skipped"]]
     vlib.log(f"[C12] harness {time.time() - t0:.1f}s")
     t0 = time.time()
     bad, nodom = validate(ck, [trace_line(c) for c in cases])
@@ -743,16 +796,22 @@ def _count(cases, k):
 def _samples(ck, cases):
     want = ["MC_parse", "MC_slots", "MC_message", "Sim_deep", "random"]
     for w in want:
+        best = None
         for c in cases:
             if c["origin"].startswith(w) and c["cls"] == "valid" and c.get("got"):
-                g = c["got"]
-                s = {"origin": c["origin"], "pattern": c["pattern"][:200]}
-                if c["op"] == "fmt":
-                    s["out"] = g["out"][:200]
-                else:
-                    s.update({"message": c["e"]["msg"], "multi": c["multi"], "kind": c["e"]["kind"], "outs": [o[:120] for o in g["outs"][:6]]})
-                ck.sample(s)
-                break
+                score = c["pattern"].count("%(") * 10 + ("\n" in c["e"]["msg"] if c["op"] == "e2e" else 0) * 25 - len(c["pattern"]) / 40
+                if best is None or score > best[0]:
+                    best = (score, c)
+        if best:
+            c = best[1]
+            g = c["got"]
+            s = {"origin": c["origin"], "pattern": c["pattern"][:240]}
+            if c["op"] == "fmt":
+                s["values"] = {k: (v if isinstance(v, list) else v[:40]) for k, v in c["b"].items()}
+                s["out"] = g["out"][:300]
+            else:
+                s.update({"message": c["e"]["msg"], "multi": c["multi"], "kind": c["e"]["kind"], "outs": [o[:160] for o in g["outs"][:6]]})
+            ck.sample(s)
 
 
 def _describe(c):
